@@ -400,7 +400,7 @@ func (fv *FuncVC) mergeStates(sts []*State, conds []string, tag string) *State {
 			cells[k] = true
 		}
 	}
-	for k := range cells {
+	for _, k := range sortedAllocs(cells) {
 		var ts []Term
 		for _, s := range sts {
 			ts = append(ts, fv.lvRoot(s, &LValue{Kind: LAlloc, Alloc: k}))
@@ -426,7 +426,7 @@ func (fv *FuncVC) mergeStates(sts []*State, conds []string, tag string) *State {
 			globals[k] = true
 		}
 	}
-	for k := range globals {
+	for _, k := range sortedGlobals(globals) {
 		var ts []Term
 		for _, s := range sts {
 			ts = append(ts, fv.globalTerm(s, k))
@@ -456,7 +456,7 @@ func (fv *FuncVC) mergeStates(sts []*State, conds []string, tag string) *State {
 			slices[k] = true
 		}
 	}
-	for k := range slices {
+	for _, k := range sortedValues(slices) {
 		var ts []Term
 		for _, s := range sts {
 			t, ok := s.slices[k]
